@@ -20,5 +20,7 @@ MANIFEST = {
 }
 
 def run(ctx):
-    ctx.gen_lean()          # Tie A: regenerate lean/UvModel/Generated from /repo; GenEq ties HandleKernels to it
-    loopsim.drive(ctx, "C03", ["UvModel.Props.C03", "UvModel.GenEq"], ["C03", "C03", "C03", "C02"], 900, 12000)
+    ctx.trusted += ["tools/gen_lean.py (clang AST -> Lean for the timeout kernels and uv_run's run_entry / run_iter / run_exit) and UvModel/CSem.lean"]
+    # Tie A: regenerate lean/UvModel/Generated from /repo; GenEq ties HandleKernels to it, GenEq/C03 the entry / one iteration / exit of uv_run
+    ctx.gen_lean(need=["core", "C03"])
+    loopsim.drive(ctx, "C03", ["UvModel.Props.C03", "UvModel.GenEq", "UvModel.GenEq.C03"], ["C03", "C03", "C03", "C02"], 900, 12000)
